@@ -164,7 +164,9 @@ def error_provenance(ctx):
         G.field_closures(ctx, "C10.1")
     with ctx.only(lambda k: k in ("keep-first/occupied",)):
         G.keep_first_or_error(ctx, "C10.1")
-    with ctx.only(lambda k: k in ("resolver/Compact.path", "resolver/BitSequence.path")):
+    # a missing id at a nested position (element, member, generic argument) is reported because every arm of the resolver resolves its children
+    # through the fallible look-up and hands the error on with `?`; the missing-path errors are two of these arms
+    with ctx.only(lambda k: k.startswith("resolver/")):
         G.resolver_arms(ctx, "C10.1")
 
 
